@@ -7,11 +7,13 @@ Driver for C03.  Operations (one per line); an argument token `~` stands for the
 own `option_names()`).
 
 * `run <shape> <tok>*`   — construct the shape, parse the argument vector.
-     result  `exc:duplicate-names` | `exc:options`                        (constructor threw)
+     result  `exc:duplicate-names msg=TEXT` | `exc:options msg=TEXT`      (constructor threw; TEXT = what the exception says)
              `diverge`                                                     (fuel exhausted)
-             `P=<ok REC|error> R=<ok REC rest=TOKS|missing rest=TOKS|other>`   (`options::parse` / the parser's own `parse` member;
-                                                                            `missing` shows the state the `missing_error` carries)
-             `H=<help|ok REC|error> R=…`                                   (shapes run through `parse_help`)
+             `P=<ok REC|error msg=TEXT> R=<ok REC rest=TOKS|missing rest=TOKS msg=TEXT|other msg=TEXT>`
+                    (`options::parse`, the `error` printed through its `operator<<` / the parser's own `parse` member;
+                     `missing` shows the state and the text the `missing_error` carries)
+             `H=<help text=TEXT|ok REC|error msg=TEXT> R=…`               (shapes run through `parse_help`)
+     TEXT: `\` for a backslash, `\n` for a line break, `~` for the empty text
 * `hang <shape> <tok>*`  — the same (the harness runs it under a short watchdog)
 * `ex <shape> <n> <k> <alphabet: k tokens> <prefix tokens>*` — FNV digest over the `run` lines of all argument
      vectors of length `n` over the alphabet that start with the prefix (last position varies fastest)
@@ -19,7 +21,7 @@ own `option_names()`).
 * `weave <shape> <e> <e tokens> <base tokens>*` — digest over all merges of the two vectors that keep both orders
      (woven-in token first)
 * `info <shape>` — `flag_names()` / `option_names()` of every parser object the harness constructs, in construction order,
-     and the name of every `sub_command` (`F=… O=… | … | C=name | …`)
+     its `usage()` string, and name and help text of every `sub_command` (`F=… O=… U=TEXT | … | C=name T=TEXT|none | …`)
 -/
 namespace Fcppt.C03.Drv
 open Fcppt.Proto
@@ -51,37 +53,32 @@ def showRec (r : Rec) : String := showVal (.recd r)
 
 def showToks (l : List Arg) : String := if l.isEmpty then "-" else ",".intercalate (l.map fun a => encodeTok a.2)
 
-def excName : ExcKind → String
+/-- a text on one line -/
+def esc (s : String) : String :=
+  if s.isEmpty then "~" else
+  String.join (s.toList.map fun c => if c = '\\' then "\\\\" else if c = '\n' then "\\n" else c.toString)
+
+def excName (e : Exc) : String :=
+  (match e.kind with
   | .duplicateNames => "exc:duplicate-names"
   | .optionsException => "exc:options"
-  | _ => "exc:other"
+  | _ => "exc:other") ++ " msg=" ++ esc e.msg
 
-/-- `std::set<flag_name>` / `std::set<option_name>`: sorted, no duplicates; an option name is ordered by (name, is_short) -/
-def optLt (a b : String × Bool) : Bool := a.1 < b.1 || (a.1 == b.1 && (!a.2 && b.2))
-
-def insertSet {α : Type} [BEq α] (lt : α → α → Bool) (x : α) : List α → List α
-  | [] => [x]
-  | y :: r => if x == y then y :: r else if lt x y then x :: y :: r else y :: insertSet lt x r
-
-def toSet {α : Type} [BEq α] (lt : α → α → Bool) (l : List α) : List α := l.foldr (insertSet lt) []
-
-def showFlagNames (l : List String) : String :=
-  let s := toSet (fun a b => decide (a < b)) l
+def showFlagNames (s : List String) : String :=
   if s.isEmpty then "-" else ",".intercalate (s.map encodeTok)
 
-def showOptionNames (l : Ctx) : String :=
-  let s := toSet optLt l
+def showOptionNames (s : Ctx) : String :=
   if s.isEmpty then "-" else ",".intercalate (s.map fun (n, sh) => encodeTok n ++ (if sh then ":s" else ":l"))
 
 def nodeLine : Node → String
-  | .parser p => s!"F={showFlagNames p.flagNames} O={showOptionNames p.optionNames}"
-  | .sub n => s!"C={encodeTok n}"
+  | .parser p => s!"F={showFlagNames p.flagNameSet} O={showOptionNames p.optionNameSet} U={esc p.usage}"
+  | .sub n h => s!"C={encodeTok n} T=" ++ (match h with | none => "none" | some t => esc t)
 
 def rawPart (f : Nat) (p : OP) (args : List String) (ctx : Option Ctx) : String :=
   match parse f p (index args) (ctx.getD p.optionNames) with
   | .ok (st, r, _) => s!"ok {showRec r} rest={showToks st}"
-  | .error (.missing st) => s!"missing rest={showToks st}"
-  | .error .other => "other"
+  | .error (.missing st m) => s!"missing rest={showToks st} msg={esc m}"
+  | .error (.other m) => s!"other msg={esc m}"
   | .error .diverge => "diverge"
 
 def runLine (s : Shape) (ctx : Option Ctx) (args : List String) : String :=
@@ -93,14 +90,14 @@ def runLine (s : Shape) (ctx : Option Ctx) (args : List String) : String :=
       let f := fuelFor s.op args.length
       match parseTop f s.op args with
       | .error .diverge => "diverge"
-      | .error .error => s!"P=error R={rawPart f s.op args ctx}"
+      | .error (.error m) => s!"P=error msg={esc m} R={rawPart f s.op args ctx}"
       | .ok (r, _) => s!"P=ok {showRec r} R={rawPart f s.op args ctx}"
     | some (hsh, hlg) =>
       let f := fuelFor (helpSum hsh hlg s.op) args.length
       match parseHelp f hsh hlg s.op args with
       | .error .diverge => "diverge"
-      | .error .error => s!"H=error R={rawPart f s.op args ctx}"
-      | .ok .help => s!"H=help R={rawPart f s.op args ctx}"
+      | .error (.error m) => s!"H=error msg={esc m} R={rawPart f s.op args ctx}"
+      | .ok (.help t) => s!"H=help text={esc t} R={rawPart f s.op args ctx}"
       | .ok (.result r _) => s!"H=ok {showRec r} R={rawPart f s.op args ctx}"
 
 def infoLine (s : Shape) : String :=
